@@ -1,4 +1,5 @@
 import IpamVerif.System
+import IpamVerif.Facts
 /-!
 # C20 — objects read from the informer caches are never modified in place
 
@@ -114,5 +115,9 @@ theorem step_views_only_by_environment (s : Sys) (e : Ev)
   | ccGen n g => simp only [step]; split <;> exact ⟨rfl, rfl⟩
   | ccAddFin n f => simp only [step]; split <;> (try split) <;> exact ⟨rfl, rfl⟩
   | nodeSetCIDRs n c => simp [step]
+
+/-- the objects sent to the API server by the ClusterCIDR write paths are DeepCopies (C20) -/
+theorem writesUseCopies : Facts.deepCopyWrites.all (fun (_, w, c) => w == c && w > 0) = true := by decide
+
 
 end Ipam.C20
